@@ -385,18 +385,17 @@ Theorem ascii_digits_multi_spec fuel t off v r :
   exists v', r = ADone (fst (unsigned_spec t (rest_at v off)), off + snd (unsigned_spec t (rest_at v off))) v' /\
              vcur v' = vcur v /\ vS v' = vS v.
 Proof.
-  intros Hwf Hb Hf Hr. unfold ascii_digits_multi in Hr. inversion Hr as [| | | |n c v0 b r0 Hok Hc| | | | | | | | | |]; subst.
-  destruct b; cbn [negb] in Hc.
+  intros Hwf Hb Hf Hr. unfold ascii_digits_multi in Hr. inversion Hr; subst.
+  match goal with H : tryload_ok _ _ ?o |- _ => destruct o as [w|]; cbn [tryload_ok] in H; rename H into Hok end.
   - (* fast path *)
-    destruct Hok as [_ Hok]. specialize (Hok eq_refl). change (vcur v + (off + 8)) with (vcur v + (off + 8)) in Hok.
-    inversion Hc as [| | | | |off0 c0 v1 r1 Hh Hc1|off0 c0 v1 Hh| | | | | | | |]; subst.
-    + assert (Hlen : vcur v + off + 8 <= nlen (vS v)) by lia.
-      destruct (multi_fast_unsigned fuel t off (v_buflen v (off + 8) true) r) as (v' & H1 & H2 & H3); auto.
-      exists v'. split; [exact H1|split; assumption].
-    + cbn [v_buflen vhwm vcur] in Hh. lia.
+    destruct Hok as [Hlen ->].
+    match goal with H : aruns _ (v_loaded v off _) r |- _ => rename H into Hc end.
+    destruct (multi_fast_unsigned fuel t off (v_loaded v off (Some (word_at v off))) r) as (v' & H1 & H2 & H3); auto.
+    exists v'. split; [exact H1|split; assumption].
   - (* cold path: the simple scanner *)
+    match goal with H : aruns _ (v_loaded v off None) r |- _ => rename H into Hc end.
     unfold ascii_digits in Hc. rewrite (det_aruns _ _ _ Hc (det_digits_loop _ _ _ _ _ _)).
-    destruct (ascii_digits_spec fuel t off (v_buflen v (off + 8) false)) as (v' & H1 & H2); [exact Hf|].
+    destruct (ascii_digits_spec fuel t off (v_loaded v off None)) as (v' & H1 & H2); [exact Hf|].
     unfold ascii_digits in H1. exists v'. split; [exact H1|].
     destruct H2 as (b1 & _ & b3 & _). split; assumption.
 Qed.
@@ -532,22 +531,20 @@ Theorem signed_ascii_digits_multi_spec fuel t off v r :
   exists v', r = ADone (fst (signed_spec t (rest_at v off)), off + snd (signed_spec t (rest_at v off))) v' /\
              vcur v' = vcur v /\ vS v' = vS v.
 Proof.
-  intros Hs Hwf Hb Hf Hf1 Hr. unfold signed_ascii_digits_multi in Hr.
-  inversion Hr as [| | | |n c v0 b r0 Hok Hc| | | | | | | | | |]; subst.
-  destruct b; cbn [negb] in Hc.
-  - destruct Hok as [_ Hok]. specialize (Hok eq_refl).
-    inversion Hc as [| | | | |off0 c0 v1 r1 Hh Hc1|off0 c0 v1 Hh| | | | | | | |]; subst.
-    + assert (Hlen : vcur v + off + 8 <= nlen (vS v)) by (unfold bytes, byte in *; unfold bytes, byte in *; lia).
-      destruct (multi_fast_signed fuel t off (v_buflen v (off + 8) true) r) as (v' & H1 & H2 & H3); auto.
-      exists v'. split; [exact H1|split; assumption].
-    + cbn [v_buflen vhwm vcur] in Hh. (unfold bytes, byte in *; unfold bytes, byte in *; lia).
+  intros Hs Hwf Hb Hf Hf1 Hr. unfold signed_ascii_digits_multi in Hr. inversion Hr; subst.
+  match goal with H : tryload_ok _ _ ?o |- _ => destruct o as [w|]; cbn [tryload_ok] in H; rename H into Hok end.
+  - destruct Hok as [Hlen ->].
+    match goal with H : aruns _ (v_loaded v off _) r |- _ => rename H into Hc end.
+    destruct (multi_fast_signed fuel t off (v_loaded v off (Some (word_at v off))) r) as (v' & H1 & H2 & H3); auto.
+    exists v'. split; [exact H1|split; assumption].
   - (* cold path: the simple signed scanner; it has no buffering question either *)
+    match goal with H : aruns _ (v_loaded v off None) r |- _ => rename H into Hc end.
     assert (Hdet : det (signed_ascii_digits fuel t off)).
     { unfold signed_ascii_digits. cbn [det]. intros o.
       destruct (match o with Some b => b =? 45 | None => false end); [|apply det_digits_loop].
       cbn [det]. intros [d|]; [|exact I]. destruct (is_dig d); [|exact I].
       destruct (in_range t (0 - Z.of_N (d - 48))); [apply det_digits_loop|exact I]. }
     rewrite (det_aruns _ _ _ Hc Hdet).
-    destruct (signed_ascii_digits_spec fuel t off (v_buflen v (off + 8) false) Hs Hf Hf1) as (v' & H1 & H2 & H3).
+    destruct (signed_ascii_digits_spec fuel t off (v_loaded v off None) Hs Hf Hf1) as (v' & H1 & H2 & H3).
     exists v'. split; [exact H1|split; assumption].
 Qed.
